@@ -72,7 +72,8 @@ def check(tier):
         rep.failure("terminal-names", {"terminal-names"}, dict({"input_text": text, "literals": ks, "shared_name": tn[ks[0]],
                     "why": "two different literals get the same name, hence the same synthesised non-terminals"}, **(wit or {})), no_input=wit is None)
     ok, log = C.coq_make(["theories/Props/C01.vo"])
-    for t in ["translation_preserves_language", "model_preserves_language", "premise_holds_somewhere", "name_collision_refuted"]:
+    for t in ["translation_preserves_language", "model_preserves_language", "model_production_set_is_the_specified_one",
+              "emerge_translation_preserves_language", "premise_holds_somewhere", "name_collision_refuted"]:
         rep.obligation("Props/C01.v: " + t, ok)
     rep.cov["print_assumptions"] = "Closed under the global context x%d" % log.count("Closed under the global context") if ok else "n/a"
     rep.cov["partial"] = ["name_collision_refuted (known finding D2): the theorem carries the decidable premise pure_ok"]
